@@ -354,6 +354,19 @@ func totTable(g *h.G, target int) []h.Row {
 	return t
 }
 
+// the cases are buffered and emitted in a shuffled order so that the executor processes get balanced chunks
+var pending [][]string
+
+func queue(op string, args ...string) { pending = append(pending, append([]string{op}, args...)) }
+
+func flushQueue(g *h.G) {
+	g.Rng.Shuffle(len(pending), func(i, j int) { pending[i], pending[j] = pending[j], pending[i] })
+	for _, l := range pending {
+		g.Emit(l[0], l[1:]...)
+	}
+	pending = nil
+}
+
 func emitWriterCase(g *h.G, t []h.Row, tag string) {
 	ts := h.TableString(t)
 	g.Count("writer_" + tag)
@@ -361,12 +374,12 @@ func emitWriterCase(g *h.G, t []h.Row, tag string) {
 		g.NonTrivial(ts)
 	}
 	if len(t) > 2000 && !g.Thorough() {
-		g.Emit("go.writer", ts, "07")
+		queue("go.writer", ts, "07")
 	} else {
-		g.Emit("go.writer", ts)
+		queue("go.writer", ts)
 	}
 	if tableDepth(t) <= 1024 {
-		g.Emit("boc.header", ts)
+		queue("boc.header", ts)
 	}
 }
 
@@ -393,9 +406,9 @@ func emitReaderCase(g *h.G, t []h.Row, roots []int, p h.EmitParams) {
 	if classify(g, t) {
 		g.NonTrivial(ts + rs + p.String())
 	}
-	g.Emit("boc.emit", p.String(), ts, rs)
-	g.Emit("boc.parse", h.Hex(bs))
-	g.Emit("go.reader", h.Hex(bs), ts, rs)
+	queue("boc.emit", p.String(), ts, rs)
+	queue("boc.parse", h.Hex(bs))
+	queue("go.reader", h.Hex(bs), ts, rs)
 }
 
 func genC01(g *h.G) {
@@ -431,8 +444,8 @@ func genC01(g *h.G) {
 	for _, bs := range repoBocs() {
 		g.Count("repo_boc")
 		hx := h.Hex(bs)
-		g.Emit("boc.parse", hx)
-		g.Emit("go.parse", hx)
+		queue("boc.parse", hx)
+		queue("go.parse", hx)
 		cs, err := boc.DeserializeBoc(bs)
 		if err != nil {
 			continue
@@ -477,4 +490,5 @@ func genC01(g *h.G) {
 			emitReaderCase(g, t, []int{0}, g.RandEmitParams(t, 1, true))
 		}
 	}
+	flushQueue(g)
 }
